@@ -145,13 +145,39 @@ Fixpoint rk_chunks (l : list N) : list (list N) :=
   | short => [short]
   end.
 
-(* parse_merge_cells, reduced to whether it panics: read_u16(r) then, for i in 0..count, four
-   u16 reads at 2 + 8i.  (The u16 product i * 8 cannot overflow before a read fails: a record
-   body has fewer than 65536 bytes.) *)
+(* parse_merge_cells, reduced to whether it fails (since repo commit 2466241 with Err, it used
+   to panic): fewer than 2 bytes, or fewer than 2 + 8 * count *)
 Definition merge_cells_panics (r : list N) : bool :=
   if lenN r <? 2 then true else
   let count := rd 2 0 r in
   (0 <? count) && (lenN r <? 2 + 8 * count).
+
+(* Range::from_sparse as of repo commit 3140dd1: all four bounds are searched (it used to take
+   the rows of the first and last cell, which is what Range.from_sparse of C05 still models;
+   BiffRec_proofs.from_sparse_h_sorted shows the two agree on row-sorted cells, the only case the
+   theorems need).  Positions are u32, the sizes usize: nothing here can overflow or underflow. *)
+Definition fs_min (T : Type) (f : pos -> N) (cells : list (pos * T)) : N :=
+  fold_left (fun m c => if f (fst c) <? m then f (fst c) else m) cells U32MAX.
+Definition fs_max (T : Type) (f : pos -> N) (cells : list (pos * T)) : N :=
+  fold_left (fun m c => if m <? f (fst c) then f (fst c) else m) cells 0.
+
+Definition from_sparse_h (T : Type) (d : T) (cells : list (pos * T)) : outcome (range T) :=
+  match cells with
+  | [] => Ok empty
+  | _ :: _ =>
+    let row_start := fs_min fst cells in
+    let row_end := fs_max fst cells in
+    let col_start := fs_min snd cells in
+    let col_end := fs_max snd cells in
+    let cols := col_end - col_start + 1 in
+    let rows := row_end - row_start + 1 in
+    let len := cols * rows in
+    let v := fold_left (fun v c =>
+               let idx := (fst (fst c) - row_start) * cols + (snd (fst c) - col_start) in
+               if idx <? len then list_set v (N.to_nat idx) (snd c) else v)
+             cells (repeat d (N.to_nat len)) in
+    Ok (mkRange (row_start, col_start) (row_end, col_end) v)
+  end.
 
 Section Biff.
 Variable fdiv100 : N -> N.
@@ -180,15 +206,16 @@ Fixpoint mulrk_cells (row col : N) (chunks : list (list N)) : outcome (list cell
       Ok (((row, col), d) :: rest)
   end.
 
-(* parse_mul_rk: col_last - col_first + 1 is u16 arithmetic (overflow checks: panic) *)
+(* parse_mul_rk: (col_last + 1).checked_sub(col_first) in usize — None gives an expected length
+   no record has (repo commit ef32b30; it was u16 arithmetic that panicked).  col_last + 1 =
+   col_first passes with a 6-byte record and no cell. *)
 Definition parse_mul_rk (r : list N) : outcome (list cellv) :=
   if lenN r <? 6 then Err 1 else
   let row := rd 2 0 r in
   let cf := rd 2 2 r in
   let cl := rd 2 (length r - 2) r in
-  if cl <? cf then Panic else
-  if 65535 <? cl - cf + 1 then Panic else
-  if negb (lenN r =? 6 + 6 * (cl - cf + 1)) then Err 1 else
+  if cl + 1 <? cf then Err 1 else
+  if negb (lenN r =? 6 + 6 * (cl + 1 - cf)) then Err 1 else
   mulrk_cells row cf (rk_chunks (firstn (length r - 6) (skipn 4 r))).
 
 (* parse_label_sst: an index outside the table and an empty string both give no cell *)
@@ -241,10 +268,9 @@ Definition step (r : frec) (cells : list cellv) (fpos : pos) (fmls : list pos) :
   let t := f_typ r in
   let d := f_data r in
   if t =? 512 then                                 (* 0x0200 DIMENSIONS *)
-    do se <- parse_dimensions d;
-    let s := fst se in let e := snd se in
-    do r0 <- sub32 (fst e) (fst s); do _ <- add32 r0 1;    (* (end.0 - start.0 + 1) as usize *)
-    do c0 <- sub32 (snd e) (snd s); do _ <- add32 c0 1;
+    (* the bounds only size a capped reservation, in saturating usize arithmetic (repo commit
+       5b1c54e; the u32 subtraction used to panic on inverted bounds) *)
+    do _ <- parse_dimensions d;
     Ok (Next cells fpos fmls)
   else if t =? 515 then do c <- parse_number d; Ok (Next (cells ++ c) fpos fmls)      (* 0x0203 *)
   else if t =? 516 then do c <- parse_label d; Ok (Next (cells ++ c) fpos fmls)       (* 0x0204 *)
@@ -255,7 +281,7 @@ Definition step (r : frec) (cells : list cellv) (fpos : pos) (fmls : list pos) :
   else if t =? 253 then do c <- parse_label_sst d; Ok (Next (cells ++ c) fpos fmls)   (* 0x00FD *)
   else if t =? 189 then do c <- parse_mul_rk d; Ok (Next (cells ++ c) fpos fmls)      (* 0x00BD *)
   else if t =? 229 then                                                              (* 0x00E5 *)
-    if merge_cells_panics d then Panic else Ok (Next cells fpos fmls)
+    if merge_cells_panics d then Err 1 else Ok (Next cells fpos fmls)
   else if t =? 10 then Ok Stop                                                       (* 0x000A EOF *)
   else if t =? 6 then                                                                (* 0x0006 *)
     if lenN d <? 20 then Err 1 else
@@ -295,16 +321,16 @@ Definition sheet_cells (stream : list N) : outcome (list cellv * list pos) :=
   sheet_loop (S (length stream)) stream [] (0, 0) [].
 
 (* the value range of one sheet substream: Range::from_sparse(cells), then
-   Range::from_sparse(formulas) (only its panics are observable here) *)
+   Range::from_sparse(formulas) (nothing of it is observable here any more: it cannot panic) *)
 Definition sheet_model (stream : list N) : outcome (range data) :=
   do cf <- sheet_cells stream;
-  do r <- from_sparse DEmpty (fst cf);
-  do _ <- from_sparse tt (map (fun p => (p, tt)) (snd cf));
+  do r <- from_sparse_h DEmpty (fst cf);
+  do _ <- from_sparse_h tt (map (fun p => (p, tt)) (snd cf));
   Ok r.
 
-(* &stream[pos..] for the BoundSheet8 position *)
+(* stream.get(pos..) for the BoundSheet8 position (Err since repo commit 992524e) *)
 Definition sheet_at (workbook : list N) (p : N) : outcome (range data) :=
-  if lenN workbook <? p then Panic else sheet_model (skipn (N.to_nat p) workbook).
+  if lenN workbook <? p then Err 1 else sheet_model (skipn (N.to_nat p) workbook).
 
 (* one cell record body as the hook verif_hooks::xls::parse_cell_record dispatches it *)
 Definition parse_cell_record (typ : N) (d : list N) : outcome (list cellv) :=
@@ -332,9 +358,20 @@ Definition wf_xlstr (maxlen : N) (s : xlstr) : bool :=
   (lenN (s_units s) <=? maxlen) &&
   forallb (fun u => u <? (if s_wide s then 65536 else 256)) (s_units s).
 
-(* the cached result of a formula *)
+(* the cached result of a formula.  A string result lives in the STRING record that follows the
+   FORMULA; when it is long (a cell holds up to 32767 characters, a record body 8224 bytes) it
+   is continued in CONTINUE records, each starting with its own fHighByte flag byte:
+   [CStr s more] = STRING holding cch (of the whole string), s's flag and characters, then one
+   CONTINUE per element of [more] (flag byte, characters).  [more = []] is the common case. *)
 Inductive cached : Type :=
-| CNum (bits : N) | CBool (b : bool) | CErr (e : cerr) | CBlank | CStr (s : xlstr).
+| CNum (bits : N) | CBool (b : bool) | CErr (e : cerr) | CBlank
+| CStr (s : xlstr) (more : list xlstr).
+
+Definition frame (t : N) (d : list N) : list N := le_bytes 2 t ++ le_bytes 2 (lenN d) ++ d.
+
+(* a record the sheet loop ignores, as (type, body): SHRFMLA 0x04BC, ARRAY 0x0221, TABLE 0x0236
+   between a FORMULA and its STRING; ROW, DBCELL, INDEX, BLANK, MULBLANK, WINDOW2 … elsewhere *)
+Definition midrec : Type := (N * list N)%type.
 
 Definition err_code (e : cerr) : N :=
   match e with
@@ -342,8 +379,11 @@ Definition err_code (e : cerr) : N :=
   | EName => 29 | ENum => 36 | ENA => 42 | EGettingData => 43
   end.
 
-(* physical items of a sheet substream, in stream order.  Each is one record (FORMULA with a
-   string result: two).  Every number can be an INumber; IRk / IMulRk carry the chosen RK form. *)
+(* physical items of a sheet substream, in stream order.  Each is one record, except IFormula:
+   FORMULA, then the records [mid] ([MS-XLS] 2.1.7.20.5: Formula [Array / Table / ShrFmla / SUB]
+   [String *Continue] — Excel writes SHRFMLA after the first cell of a filled-down shared formula
+   and ARRAY after the anchor of an array formula), then, for a string result, STRING and its
+   CONTINUE records.  Every number can be an INumber; IRk / IMulRk carry the chosen RK form. *)
 Inductive item : Type :=
 | INumber (row col ixfe bits : N)
 | IRk (row col ixfe : N) (f : rk_form)
@@ -352,11 +392,9 @@ Inductive item : Type :=
 | ILabel (row col ixfe : N) (s : xlstr)
 | IBool (row col ixfe : N) (b : bool)
 | IErr (row col ixfe : N) (e : cerr)
-| IFormula (row col ixfe : N) (c : cached) (grbit chn : N) (fmla : list N)
+| IFormula (row col ixfe : N) (c : cached) (grbit chn : N) (fmla : list N) (mid : list midrec)
 | IDims (wide : bool) (rf rl cf cl : N)
 | IOther (typ : N) (body : list N).                        (* any record the loop ignores *)
-
-Definition frame (t : N) (d : list N) : list N := le_bytes 2 t ++ le_bytes 2 (lenN d) ++ d.
 
 Definition cell_head (row col ixfe : N) : list N :=
   le_bytes 2 row ++ le_bytes 2 col ++ le_bytes 2 ixfe.
@@ -369,8 +407,23 @@ Definition enc_cached (c : cached) : list N :=
   | CBool b => [1; 0; flag b; 0; 0; 0; 255; 255]
   | CErr e => [2; 0; err_code e; 0; 0; 0; 255; 255]
   | CBlank => [3; 0; 0; 0; 0; 0; 255; 255]
-  | CStr _ => [0; 0; 0; 0; 0; 0; 255; 255]
+  | CStr _ _ => [0; 0; 0; 0; 0; 0; 255; 255]
   end.
+
+(* the units of a string result, all fragments together *)
+Definition cstr_units (s : xlstr) (more : list xlstr) : list N :=
+  s_units s ++ flat_map s_units more.
+
+Definition frag_chars (s : xlstr) : list N := if s_wide s then utf16le (s_units s) else s_units s.
+
+(* STRING: cch counts the characters of the whole string; then the first fragment *)
+Definition enc_string_rec (s : xlstr) (more : list xlstr) : list N :=
+  le_bytes 2 (lenN (cstr_units s more)) ++ [flag (s_wide s)] ++ frag_chars s.
+
+(* CONTINUE: the fragment's own flag byte, then its characters *)
+Definition enc_cont_rec (m : xlstr) : list N := flag (s_wide m) :: frag_chars m.
+
+Definition enc_mid (m : midrec) : list N := frame (fst m) (snd m).
 
 Definition enc_item (it : item) : list N :=
   match it with
@@ -383,9 +436,14 @@ Definition enc_item (it : item) : list N :=
   | ILabel row col ixfe s => frame 516 (cell_head row col ixfe ++ enc_xlstr s)
   | IBool row col ixfe b => frame 517 (cell_head row col ixfe ++ [flag b; 0])
   | IErr row col ixfe e => frame 517 (cell_head row col ixfe ++ [err_code e; 1])
-  | IFormula row col ixfe c grbit chn fmla =>
+  | IFormula row col ixfe c grbit chn fmla mid =>
       frame 6 (cell_head row col ixfe ++ enc_cached c ++ le_bytes 2 grbit ++ le_bytes 4 chn ++ fmla)
-      ++ match c with CStr s => frame 519 (enc_xlstr s) | _ => [] end
+      ++ flat_map enc_mid mid
+      ++ match c with
+         | CStr s more => frame 519 (enc_string_rec s more)
+                          ++ flat_map (fun m => frame 60 (enc_cont_rec m)) more
+         | _ => []
+         end
   | IDims true rf rl cf cl =>
       frame 512 (le_bytes 4 rf ++ le_bytes 4 rl ++ le_bytes 2 cf ++ le_bytes 2 cl ++ [0; 0])
   | IDims false rf rl cf cl =>
@@ -413,23 +471,28 @@ Fixpoint mulrk_denote (row col : N) (rks : list (N * rk_form)) : list cellv :=
               :: mulrk_denote row (col + 1) t
   end.
 
-Definition cached_data (c : cached) : data :=
+(* [full = true]: the cached result as stored (the property's reading);
+   [full = false]: what the current reader takes from it — the STRING record's own characters,
+   the CONTINUE fragments are dropped (parse_string looks at r.data only; see known_C02) *)
+Definition cached_data_gen (full : bool) (c : cached) : data :=
   match c with
   | CNum bits => DFloat bits
   | CBool b => DBool b
   | CErr e => DError e
   | CBlank => DString []
-  | CStr s => DString (str_text s)
+  | CStr s more => DString (decode16 (utf16le (if full then cstr_units s more else s_units s)))
   end.
+Definition cached_data : cached -> data := cached_data_gen true.
 
 (* the value of a formula cell: its cached result; a number under the cell's number format *)
-Definition formula_data (ixfe : N) (c : cached) : data :=
+Definition formula_data_gen (full : bool) (ixfe : N) (c : cached) : data :=
   match c with
   | CNum bits => num_data ixfe (RFloat bits)
-  | _ => cached_data c
+  | _ => cached_data_gen full c
   end.
+Definition formula_data : N -> cached -> data := formula_data_gen true.
 
-Definition item_cells (it : item) : list cellv :=
+Definition item_cells_gen (full : bool) (it : item) : list cellv :=
   match it with
   | INumber row col ixfe bits => [((row, col), num_data ixfe (RFloat bits))]
   | IRk row col ixfe f => [((row, col), num_data ixfe (rk_form_value fdiv100 f))]
@@ -442,18 +505,22 @@ Definition item_cells (it : item) : list cellv :=
   | ILabel row col ixfe s => [((row, col), DString (str_text s))]
   | IBool row col ixfe b => [((row, col), DBool b)]
   | IErr row col ixfe e => [((row, col), DError e)]
-  | IFormula row col ixfe c _ _ _ => [((row, col), formula_data ixfe c)]
+  | IFormula row col ixfe c _ _ _ _ => [((row, col), formula_data_gen full ixfe c)]
   | IDims _ _ _ _ _ => []
   | IOther _ _ => []
   end.
+Definition item_cells : item -> list cellv := item_cells_gen true.
+Definition item_read : item -> list cellv := item_cells_gen false.
 
 (* the logical sheet a layout stands for: its cells in stream order *)
 Definition logical (c : layout) : list cellv := flat_map item_cells (l_items c).
+(* what the current reader makes of it (differs from [logical] only inside known_C02's class) *)
+Definition read_logical (c : layout) : list cellv := flat_map item_read (l_items c).
 
 (* the positions of its formula cells, in stream order *)
 Definition item_fmls (it : item) : list pos :=
   match it with
-  | IFormula row col _ _ _ _ _ => [(row, col)]
+  | IFormula row col _ _ _ _ _ _ => [(row, col)]
   | _ => []
   end.
 Definition layout_fmls (c : layout) : list pos := flat_map item_fmls (l_items c).
@@ -466,12 +533,29 @@ Definition interpreted (t : N) : bool :=
 Definition wf_cell (row col ixfe : N) : bool :=
   (row <? 65536) && (col <? 256) && (ixfe <? 65536).
 
+(* a string result: every fragment fits its record (at most 8220 bytes of characters: 8220
+   compressed or 4110 16-bit ones; a record body holds 8224 bytes), 16-bit units only in wide
+   fragments, at most 32767 characters in all (Excel's cell limit) *)
+Definition wf_frag (s : xlstr) : bool :=
+  (lenN (frag_chars s) <=? 8220) &&
+  forallb (fun u => u <? (if s_wide s then 65536 else 256)) (s_units s).
+
 Definition wf_cached (c : cached) : bool :=
   match c with
   | CNum bits => (bits <? 18446744073709551616) && negb (bits / 281474976710656 =? 65535)
-  | CStr s => wf_xlstr 4000 s
+  | CStr s more =>
+      wf_frag s && forallb wf_frag more && (lenN (cstr_units s more) <=? 32767)
   | _ => true
   end.
+
+(* a record between FORMULA and STRING (and an IOther anywhere): a type the loop does not
+   interpret.  Of the interpreted types the ones that would disturb the pending position are
+   FORMULA (overwrites fmla_pos), STRING (pushes a second cell there), EOF (ends the sheet) and
+   CONTINUE (folded into the record before it); the cell records, DIMENSIONS and MERGECELLS
+   would leave fmla_pos alone but are not allowed there by the BIFF8 grammar and would put
+   their own cells in between.  Lemma step_keeps_fpos (BiffRec_proofs.v) states the first part. *)
+Definition wf_mid (m : midrec) : bool :=
+  (fst m <? 65536) && negb (interpreted (fst m)) && (lenN (snd m) <=? 8224).
 
 Definition wf_item (it : item) : bool :=
   match it with
@@ -484,9 +568,9 @@ Definition wf_item (it : item) : bool :=
   | ILabel row col ixfe s => wf_cell row col ixfe && wf_xlstr 255 s
   | IBool row col ixfe _ => wf_cell row col ixfe
   | IErr row col ixfe _ => wf_cell row col ixfe
-  | IFormula row col ixfe c grbit chn fmla =>
+  | IFormula row col ixfe c grbit chn fmla mid =>
       wf_cell row col ixfe && wf_cached c && (grbit <? 65536) && (chn <? 4294967296) &&
-      (lenN fmla <=? 8000)
+      (lenN fmla <=? 8000) && forallb wf_mid mid
   | IDims wide rf rl cf cl =>
       (rl <=? (if wide then 65536 else 65535)) && (cl <=? 256) &&
       ((rl =? 0) || (cl =? 0) || ((rf <? rl) && (cf <? cl))) &&
@@ -508,12 +592,37 @@ Fixpoint sorted_by_rowb (cs : list cellv) : bool :=
                  end
   end.
 
-(* classes of legal layouts on which the current code is known to violate the property: none.
-   (The one class found while building this model — a LABEL or STRING record holding the empty
-   string, rejected by parse_string's former [r.len() < 4] — was repaired in /repo by commit
-   1abac51; the model follows the repaired guard.)  Kept so that the check's plumbing
-   (model|spec|known) stays uniform. *)
-Definition known_C02 (c : layout) : option N := None.
+(* classes of legal layouts on which the current code is known to violate the property.
+   1 = StringContinue: a formula's string result continued in CONTINUE records with at least one
+       character there — the sheet loop hands r.data (the STRING record's own bytes) to
+       parse_string and never looks at r.cont, so the cell reads only the first fragment.
+   (An earlier class — a LABEL or STRING record holding the empty string, rejected by
+   parse_string's former [r.len() < 4] — was repaired in /repo by commit 1abac51; the model
+   follows the repaired guard.) *)
+Definition is_nilb (A : Type) (l : list A) : bool := match l with [] => true | _ => false end.
+
+Definition item_known (it : item) : bool :=
+  match it with
+  | IFormula _ _ _ (CStr _ more) _ _ _ _ => negb (is_nilb (flat_map s_units more))
+  | _ => false
+  end.
+
+Definition known_C02 (c : layout) : option N :=
+  if existsb item_known (l_items c) then Some 1 else None.
+
+(* ---- named shapes of ignored records (all are IOther items; see ignorable_wf) ---- *)
+Definition blank_item (row col ixfe : N) : item := IOther 513 (cell_head row col ixfe).
+Definition mulblank_item (row cf : N) (ixfes : list N) : item :=                (* 0x00BE *)
+  IOther 190 (le_bytes 2 row ++ le_bytes 2 cf ++ flat_map (le_bytes 2) ixfes
+              ++ le_bytes 2 (cf + lenN ixfes - 1)).
+Definition row_item (row cf cl height : N) : item :=                            (* 0x0208 *)
+  IOther 520 (le_bytes 2 row ++ le_bytes 2 cf ++ le_bytes 2 cl ++ le_bytes 2 height
+              ++ [0; 0; 0; 0; 0; 1; 15; 0]).
+Definition dbcell_item (row_off : N) (cell_offs : list N) : item :=             (* 0x00D7 *)
+  IOther 215 (le_bytes 4 row_off ++ flat_map (le_bytes 2) cell_offs).
+Definition index_item (rf rl : N) (dbcells : list N) : item :=                  (* 0x020B *)
+  IOther 523 ([0; 0; 0; 0] ++ le_bytes 4 rf ++ le_bytes 4 rl ++ [0; 0; 0; 0]
+              ++ flat_map (le_bytes 4) dbcells).
 
 (* legal c L : c is a legal BIFF8 layout of the logical sheet L, cell records in row order
    (Range::from_sparse takes the first and last cell's rows as the row bounds; Excel writes
